@@ -3,11 +3,13 @@
 
    The signature scheme is a premise (ideal_sig: complete, and a verifying signature is the
    signature of exactly that message), never an axiom; ideal_sig_inhabited (Fed/C13Instance.v) shows it satisfiable.
-   Three facts about canonical JSON enter as named premises, to be discharged from C01's
-   theorems at integration:
-     canon_inj    (canon_print_injective, specialised to the five-member signing object),
-     and, per request, that the canonical body is non-empty, valid UTF-8 and canonicalises to
-     itself (canonical_idempotent).
+   The facts about canonical JSON are C01's theorems and are used as such (no premise left):
+     canon_print_injective (Json/CanonFacts.v), specialised to the five-member signing object
+     (RequestProofs.canon_inj_holds; the bodies are parsed values, hence well-formed:
+     ParseSound.parse_wf), and canonical_idempotent_all (Json/ParseSound.v): the body Sign leaves
+     is non-empty and canonicalises to itself (RequestProofs.fr_sign_content).
+   What remains a hypothesis of sign_send_verify about the input: the canonical body is valid
+   UTF-8 (the parser does not check the encoding of raw string bytes, the receiver does).
    net/url is a parameter: url_request_uri d u is what url.Parse(matrix://d ++ u).RequestURI()
    returns; the request target the server hands to the handler is the one the client wrote
    (Request.deliver). *)
@@ -69,7 +71,7 @@ Section C13.
       f_method r0 <> [] -> utf8_valid (f_method r0) = true -> utf8_valid (f_uri r0) = true ->
       valid_server_name origin = true -> valid_server_name (f_dest r0) = true ->
       key_id_ok keyid = true ->
-      (forall b, f_content r1 = Some b -> b <> [] /\ utf8_valid b = true /\ canonical b = Some b) ->
+      (forall b, f_content r1 = Some b -> utf8_valid b = true) ->
       dest_local rc (f_dest r0) = true ->
       lookup_key pkT (rc_store rc) origin keyid = Some e -> k_pub e = pub sk ->
       was_valid_at pkT e now realnow = true -> rc_dberr rc = false ->
@@ -77,9 +79,11 @@ Section C13.
                  f_method r' = f_method r1 /\ f_uri r' = f_uri r1 /\ f_origin r' = f_origin r1 /\
                  f_dest r' = f_dest r1 /\ f_content r' = f_content r1.
   Proof.
-    destruct IS. intros until e. intros H1 H2 H3 H4 H5 H6 Ho Hd Hk.
+    destruct IS. intros until e. intros H1 H2 H3 H4 H5 H6 Ho Hd Hk Hu.
     destruct (key_id_plain _ Hk).
     assert (f_dest r0 <> []) by (intro E; rewrite E in Hd; discriminate).
+    assert (forall b, f_content r1 = Some b -> b <> [] /\ utf8_valid b = true /\ canonical b = Some b).
+    { intros b Hb. destruct (fr_sign_content skT sigT sign sig_wire _ _ _ _ _ _ H2 Hb). auto. }
     eapply sign_send_verify_lemma; eauto using valid_server_name_plain.
   Qed.
 
@@ -87,7 +91,6 @@ Section C13.
      made over (method, uri, origin, destination, body) IS that request: a difference in any
      one of the five means refusal. *)
   Theorem verify_binds_fields :
-    canon_inj_premise ->
     forall rc now realnow q code r k c0 d0 m0 o0 u0 msg0,
       signing_bytes c0 d0 m0 o0 u0 = Some msg0 ->
       verify_http_request rc now realnow q = (code, Some r) ->
